@@ -64,7 +64,7 @@ _HEX_UPPER = frozenset("ABCDEF")
 _HEX_LOWER = frozenset("abcdef")
 _HEX = _DIGIT | _HEX_UPPER | _HEX_LOWER
 
-_REPLACEMENT = "�"
+_REPLACEMENT = "\ufffd"
 
 _ASCII_LOWER_TABLE = {c: c + 0x20 for c in range(ord("A"), ord("Z") + 1)}
 
